@@ -11,6 +11,24 @@ from typing import Dict, List, Optional
 from .clangx import callee, statements
 
 
+import re
+
+_ARRAY_T = re.compile(r"^(?:const )?([\w ]+?)\s*\[(\d+)\]$")
+_ELEM = {"char": 1, "unsigned char": 1, "signed char": 1, "bool": 1, "short": 2, "unsigned short": 2, "int": 4, "unsigned int": 4, "float": 4,
+         "long": 8, "unsigned long": 8, "size_t": 8, "mwSize": 8, "double": 8, "long long": 8, "unsigned long long": 8, "mxChar": 2}
+
+
+def _sizeof(t: str) -> Optional[int]:
+    t = t.replace("const ", "").strip()
+    m = _ARRAY_T.match(t)
+    if m:
+        e = _ELEM.get(m.group(1).strip())
+        return e * int(m.group(2)) if e else None
+    if t.endswith("*"):
+        return 8
+    return _ELEM.get(t)
+
+
 class CUnknown(Exception):
     pass
 
@@ -33,8 +51,14 @@ class _Cont(Exception):
 
 
 class MxArray:
-    def __init__(self, m: int, n: int, cells: Optional[List[object]] = None, cls: str = "mxDOUBLE_CLASS"):
+    def __init__(self, m: int, n: int, cells: Optional[List[object]] = None, cls: str = "mxDOUBLE_CLASS", dims: Optional[List[int]] = None):
+        # dims: the extents of an N-d array; MATLAB reports mxGetM = dims[0] and mxGetN = the product of all the others
+        if dims is not None:
+            m, n = dims[0], 1
+            for d in dims[1:]:
+                n *= d
         self.m, self.n, self.cls = m, n, cls
+        self.dims = list(dims) if dims is not None else [m, n]
         self.data: List[object] = list(cells) if cells is not None else [0.0] * (m * n)
         self.oob: List[str] = []
 
@@ -70,6 +94,9 @@ class Machine:
         self.steps = 0
         self.budget = budget
         self.created: List[MxArray] = []
+        self.buffers: List[MxArray] = []
+        self.faults: List[str] = []
+        self.freed: List[MxArray] = []
 
     # ------------------------------------------------------------------ values
     def tick(self):
@@ -93,15 +120,40 @@ class Machine:
         def get():
             if 0 <= idx < len(arr.data):
                 return arr.data[idx]
-            arr.oob.append(f"read of element {idx} of an array with {len(arr.data)} element(s)")
+            arr.oob.append(f"read of element {idx} of {'a buffer' if arr.cls == 'buffer' else 'an array'} with {len(arr.data)} element(s)")
             return ("outside", idx)
 
         def set_(v):
             if 0 <= idx < len(arr.data):
                 arr.data[idx] = v
             else:
-                arr.oob.append(f"write to element {idx} of an array with {len(arr.data)} element(s)")
+                arr.oob.append(f"write to element {idx} of {'a buffer' if arr.cls == 'buffer' else 'an array'} with {len(arr.data)} element(s)")
         return Ref(get, set_)
+
+    # ------------------------------------------------------------------ character buffers and strings
+    def new_buffer(self, n: int, cells: Optional[List[object]] = None) -> Ptr:
+        b = MxArray(1, n, cells if cells is not None else [("uninitialised", k) for k in range(n)], cls="buffer")
+        self.buffers.append(b)
+        return Ptr(b)
+
+    def c_string(self, p, limit: Optional[int] = None) -> str:
+        """The characters a C string function reads from p: up to the NUL (or `limit` characters)."""
+        if not isinstance(p, Ptr):
+            raise CUnknown("string built from something that is not a character pointer")
+        out = []
+        k = 0
+        while limit is None or k < limit:
+            self.tick()
+            c = self.cell(p, k).get()
+            if c == "\0" and limit is None:
+                break
+            if not isinstance(c, str):
+                self.faults.append(f"reads {'an uninitialised byte' if c[0] == 'uninitialised' else 'a byte outside the buffer'} (offset {p.off + k} of "
+                                   f"{len(p.arr.data)}) while looking for the end of the string")
+                break
+            out.append(c)
+            k += 1
+        return "".join(out)
 
     def dense_cell(self, d: Dense, idx) -> Ref:
         key = tuple(idx) if len(idx) > 1 else (idx[0], 0)
@@ -206,6 +258,10 @@ class Machine:
                     a, b = a.off, b.off
                 if isinstance(a, tuple) or isinstance(b, tuple):
                     raise CUnknown("comparison of array cells")
+                if op in ("==", "!=") and (a is None or b is None or isinstance(a, Ptr) or isinstance(b, Ptr)):
+                    same = (a is None and b is None) or (isinstance(a, Ptr) and isinstance(b, Ptr) and a.arr is b.arr and a.off == b.off) \
+                        or (a is None and b == 0) or (b is None and a == 0)
+                    return same if op == "==" else not same
                 try:
                     return {"<": a < b, "<=": a <= b, ">": a > b, ">=": a >= b, "==": a == b, "!=": a != b}[op]
                 except TypeError:
@@ -241,10 +297,30 @@ class Machine:
                     return obj.cols
                 if nm in ("x", "y", "z") and not inner[1:]:
                     return self.dense_cell(obj, [{"x": 0, "y": 1, "z": 2}[nm]]).get()
+            if isinstance(obj, str):
+                if nm in ("c_str", "data"):
+                    return self.new_buffer(len(obj) + 1, list(obj) + ["\0"])
+                if nm in ("size", "length"):
+                    return len(obj)
+                if nm == "empty":
+                    return not obj
             raise CUnknown(f"member call {nm}")
         if k == "CXXConstructExpr":
+            inner = [a for a in inner if a.get("kind") != "CXXDefaultArgExpr"]
             args = [self.rv(a) for a in inner]
             t = (n.get("type") or {}).get("qualType", "")
+            if "string" in t:
+                if not args:
+                    return ""
+                if len(args) == 1 and isinstance(args[0], str):
+                    return args[0]
+                if len(args) == 1 and isinstance(args[0], Ptr):
+                    return self.c_string(args[0])
+                if len(args) == 2 and isinstance(args[0], Ptr) and isinstance(args[1], int):
+                    return self.c_string(args[0], args[1])
+                if len(args) == 2 and isinstance(args[0], Ptr) and isinstance(args[1], Ptr) and args[0].arr is args[1].arr:
+                    return self.c_string(args[0], args[1].off - args[0].off)
+                raise CUnknown(f"construction of a string from {len(args)} argument(s)")
             if len(args) == 1 and isinstance(args[0], Dense):
                 return args[0]                               # copy / move of a local into the return value
             if all(isinstance(a, int) for a in args):
@@ -262,6 +338,28 @@ class Machine:
                     d.cells[(i, 0)] = a
                 return d
             raise CUnknown(f"construction of {t}")
+        if k == "UnaryExprOrTypeTraitExpr" and n.get("name") == "sizeof":
+            t = (n.get("argType") or {}).get("qualType")
+            if t is None and inner:
+                e = inner[0]
+                while e.get("kind") in _TRANSPARENT and e.get("inner"):
+                    e = e["inner"][-1]
+                t = (e.get("type") or {}).get("qualType")
+            sz = _sizeof(t or "")
+            if sz is None:
+                raise CUnknown(f"sizeof({t})")
+            return sz
+        if k == "CXXNewExpr" and n.get("isArray"):
+            size = next((c for c in inner if c.get("kind") not in ("CXXConstructExpr", "InitListExpr")), None)
+            cnt = self.rv(size) if size is not None else None
+            if not isinstance(cnt, int) or cnt < 0 or cnt > 100000:
+                raise CUnknown("new[] with a size the interpreter cannot follow")
+            return self.new_buffer(cnt)
+        if k == "CXXDeleteExpr":
+            p = self.rv(inner[0])
+            if isinstance(p, Ptr):
+                self.freed.append(p.arr)
+            return None
         if k == "MemberExpr":
             raise CUnknown("member access")
         raise CUnknown(f"expression {k}")
@@ -303,6 +401,67 @@ class Machine:
             return {"mxGetM": a.m, "mxGetN": a.n, "mxGetNumberOfElements": a.m * a.n, "mxGetData": Ptr(a), "mxGetPr": Ptr(a),
                     "mxIsDouble": a.cls == "mxDOUBLE_CLASS", "mxIsChar": a.cls == "mxCHAR_CLASS", "mxIsComplex": False, "mxGetClassID": a.cls,
                     "mxIsEmpty": a.m * a.n == 0}[nm]
+        if nm == "mxArrayToString":
+            a = self.rv(args[0])
+            if not isinstance(a, MxArray):
+                raise CUnknown("mxArrayToString of something that is not a sample array")
+            if a.cls != "mxCHAR_CLASS":
+                return None
+            return self.new_buffer(len(a.data) + 1, list(a.data) + ["\0"])
+        if nm == "mxGetString":
+            a, p, ln = self.rv(args[0]), self.rv(args[1]), self.rv(args[2])
+            if not isinstance(a, MxArray) or not isinstance(p, Ptr) or not isinstance(ln, int):
+                raise CUnknown("mxGetString with arguments the interpreter cannot follow")
+            if a.cls != "mxCHAR_CLASS" or ln < 1:
+                return 1
+            fits = len(a.data) <= ln - 1            # documented: copies at most strlen - 1 characters, then the NUL; 1 when it had to cut
+            take = a.data[:ln - 1]
+            for k_, c in enumerate(take):
+                self.cell(p, k_).set(c)
+            self.cell(p, len(take)).set("\0")
+            return 0 if fits else 1
+        if nm == "mxCreateString":
+            p = self.rv(args[0])
+            txt = self.c_string(p)
+            a = MxArray(1 if txt else 0, len(txt), list(txt), cls="mxCHAR_CLASS")
+            self.created.append(a)
+            return a
+        if nm == "mxFree":
+            p = self.rv(args[0])
+            if isinstance(p, Ptr):
+                self.freed.append(p.arr)
+            return None
+        if nm == "strlen":
+            return len(self.c_string(self.rv(args[0])))
+        if nm in ("memcpy", "strncpy") and len(args) == 3:
+            d, s_, cnt = self.rv(args[0]), self.rv(args[1]), self.rv(args[2])
+            if not (isinstance(d, Ptr) and isinstance(s_, Ptr) and isinstance(cnt, int)):
+                raise CUnknown(f"{nm} with arguments the interpreter cannot follow")
+            for k_ in range(cnt):
+                self.tick()
+                c = self.cell(s_, k_).get()
+                self.cell(d, k_).set(c)
+                if nm == "strncpy" and c == "\0":
+                    break
+            return d
+        if nm == "mxGetChars":
+            a = self.rv(args[0])
+            if not isinstance(a, MxArray):
+                raise CUnknown("mxGetChars of something that is not a sample array")
+            return Ptr(a) if a.cls == "mxCHAR_CLASS" else None
+        if nm in ("mxGetNumberOfDimensions", "mxGetDimensions", "mxIsScalar", "mxIsNumeric", "mxIsLogical"):
+            a = self.rv(args[0])
+            if not isinstance(a, MxArray):
+                raise CUnknown(f"{nm} of something that is not a sample array")
+            if nm == "mxGetNumberOfDimensions":
+                return len(a.dims)
+            if nm == "mxGetDimensions":
+                return self.new_buffer(len(a.dims), list(a.dims))
+            if nm == "mxIsScalar":
+                return a.m * a.n == 1
+            if nm == "mxIsLogical":
+                return a.cls == "mxLOGICAL_CLASS"
+            return a.cls not in ("mxCHAR_CLASS", "mxLOGICAL_CLASS", "mxCELL_CLASS", "mxSTRUCT_CLASS")
         if nm in ("max", "min") and len(args) == 2:
             a, b = self.rv(args[0]), self.rv(args[1])
             if isinstance(a, (int, float)) and isinstance(b, (int, float)):
@@ -332,7 +491,10 @@ class Machine:
                     continue
                 init = [c for c in (v.get("inner") or []) if isinstance(c, dict) and c]
                 t = (v.get("type") or {}).get("qualType", "")
-                if init:
+                am = _ARRAY_T.match(t)
+                if am and not init:
+                    self.env[v["name"]] = self.new_buffer(int(am.group(2)))
+                elif init:
                     self.env[v["name"]] = self.rv(init[-1])
                 elif "Point2" in t:
                     self.env[v["name"]] = Dense(2, 1, vector=True)
